@@ -15,7 +15,8 @@
 (* SameLanguage.                                                           *)
 (***************************************************************************)
 EXTENDS Integers, Sequences, FiniteSets, TLC
-CONSTANTS Level,                 \* 0 = focus set of the what-ifs, 1 = quick enumeration, 2 = thorough
+CONSTANTS Level,                 \* 0 = focus set of the what-ifs, 1 = quick enumeration, 2 = thorough, 3 = pseudo-random deep terms
+          SimOff, SimN,          \* level 3: the seeds SimOff+1 .. SimOff+SimN
           Slice,                 \* 0 = everything; k > 0 = only the terms built around the k-th context
           ExportFinds,           \* TRUE: export Find(e, s) for every subject (matcher validation)
           GuardAltMeta,          \* x|y|z => [xyz] escapes the class metacharacters - and ]
@@ -23,6 +24,10 @@ CONSTANTS Level,                 \* 0 = focus set of the what-ifs, 1 = quick enu
           GuardZeroCap,          \* x{0} is dropped only if x contains no capture group
           GuardEmptyAlt,         \* an empty alternative is not a literal for prefix/suffix factoring
           PadOctal,              \* \01 is printed as \001, so that a digit that becomes its neighbour does not join the escape
+          FlagPrefix,            \* (?i:x) is printed with its question mark
+          GuardRangeSafe,        \* a-c => abc only if no produced character is special inside a class ([,--a] => [,-a] is another class)
+          GuardCombineCap,       \* x x => x{2} and x x* => x+ are not applied to groups that contain capture groups
+          GuardBraceComma,       \* `{`, `}` and `,` are never unwrapped / unescaped: a{2\,2} => a{2,2} would complete a repeat (NOT in the code)
           GuardPrefixOrder       \* ab|aba => aba? only if the longer literal comes first (leftmost-first choice)
 
 Sym == {"SOH", " ", ",", "-", ".", "0", "2", "9", ":", "]", "^", "a", "b", "c", "z", "{", "}"}
@@ -48,6 +53,7 @@ Posix(k, n) == [op |-> "posix", k |-> k, neg |-> n]        \* [:digit:] [:^word:
 Cls(items)  == [op |-> "cls", items |-> items]
 NCls(items) == [op |-> "ncls", items |-> items]
 Grp(x)      == [op |-> "grp", x |-> x]                      \* (?:x)
+FlagGrp(x)  == [op |-> "flag", x |-> x]                     \* (?i:x); no letter of the alphabet has another case
 Cap(x)      == [op |-> "cap", x |-> x]                      \* (x)
 NCap(x)     == [op |-> "ncap", x |-> x]                     \* (?P<n>x)
 Star(x)     == [op |-> "star", x |-> x]
@@ -74,6 +80,7 @@ Show(e) ==
     [] e.op = "cls"   -> <<"[">> \o ShowAll(e.items, <<>>) \o <<"]">>
     [] e.op = "ncls"  -> <<"[", "^">> \o ShowAll(e.items, <<>>) \o <<"]">>
     [] e.op = "grp"   -> <<"(", "?", ":">> \o Show(e.x) \o <<")">>
+    [] e.op = "flag"  -> <<"(", "?", "i", ":">> \o Show(e.x) \o <<")">>
     [] e.op = "cap"   -> <<"(">> \o Show(e.x) \o <<")">>
     [] e.op = "ncap"  -> <<"(", "?", "P<n>">> \o Show(e.x) \o <<")">>
     [] e.op = "star"  -> Show(e.x) \o <<"*">>
@@ -100,27 +107,30 @@ Flat(xs) == LET RECURSIVE F(_) F(k) == IF k > Len(xs) THEN <<>> ELSE
                   (IF xs[k] = Empty THEN <<>> ELSE IF xs[k].op = "cat" THEN xs[k].xs ELSE <<xs[k]>>) \o F(k+1) IN F(1)
 MkCat(xs) == LET ys == Flat(xs) IN IF Len(ys) = 1 THEN ys[1] ELSE Cat(ys)
 AllChars(xs) == \A i \in DOMAIN xs : xs[i].op = "ch"
-CanMerge(x, y) == x.op = y.op /\ x.op \in {"ch", "cls", "escm", "escc", "esck", "ncls", "grp"} /\ Show(x) = Show(y)
+RECURSIVE HasCap(_)
+HasCap(e) == CASE e.op \in {"cap", "ncap"} -> TRUE
+               [] e.op \in {"grp", "flag", "star", "plus", "quest", "lazy", "rep"} -> HasCap(e.x)
+               [] e.op \in {"cat", "alt"} -> \E i \in DOMAIN e.xs : HasCap(e.xs[i])
+               [] OTHER -> FALSE
+CapOK(x) == GuardCombineCap => ~HasCap(x)
+CanMerge(x, y) == x.op = y.op /\ x.op \in {"ch", "cls", "escm", "escc", "esck", "ncls", "grp"} /\ Show(x) = Show(y) /\ CapOK(x)
 \* threshold for x x x ... => x{n}; 0 = cannot combine
 Threshold(x, y) == IF x.op # y.op THEN 0
                    ELSE CASE x.op = "dot" -> 3
                           [] x.op = "ch" -> IF x.c # y.c THEN 0 ELSE IF x.c = " " THEN 1 ELSE 4
                           [] x.op \in {"escm", "escc", "esck"} -> IF Show(x) = Show(y) THEN 2 ELSE 0
-                          [] x.op \in {"cls", "ncls", "grp"} -> IF Show(x) = Show(y) THEN 1 ELSE 0
+                          [] x.op \in {"cls", "ncls", "grp"} -> IF Show(x) = Show(y) /\ CapOK(x) THEN 1 ELSE 0
                           [] OTHER -> 0
 ConcatLiteral(e) == IF e.op = "cat" /\ AllChars(e.xs) /\ (GuardEmptyAlt => e.xs # <<>>)
                     THEN (IF e.xs = <<>> THEN <<"|">> ELSE [i \in DOMAIN e.xs |-> e.xs[i].c]) ELSE <<>>
 IsPrefix(p, s) == Len(p) <= Len(s) /\ SubSeq(s, 1, Len(p)) = p
 IsSuffix(p, s) == Len(p) <= Len(s) /\ SubSeq(s, Len(s) - Len(p) + 1, Len(s)) = p
 Chars(cs) == [i \in DOMAIN cs |-> Ch(cs[i])]
-RECURSIVE HasCap(_)
-HasCap(e) == CASE e.op \in {"cap", "ncap"} -> TRUE
-               [] e.op \in {"grp", "star", "plus", "quest", "lazy", "rep"} -> HasCap(e.x)
-               [] e.op \in {"cat", "alt"} -> \E i \in DOMAIN e.xs : HasCap(e.xs[i])
-               [] OTHER -> FALSE
-Removable == {",", ".", ":"}                          \* of the escapes in the alphabet, those the code un-escapes
+Removable == {".", ":"} \cup (IF GuardBraceComma THEN {} ELSE {","})                          \* of the escapes in the alphabet, those the code un-escapes
 ClassMeta == {"-", "]"}
-NoUnwrap == {"|", "*", "+", "?", ".", "[", "^", "$", "(", ")"} \cup (IF GuardBrace THEN {"{"} ELSE {})
+NoUnwrap == {"|", "*", "+", "?", ".", "[", "^", "$", "(", ")"} \cup (IF GuardBrace THEN {"{"} ELSE {}) \cup (IF GuardBraceComma THEN {"}", ","} ELSE {})
+Alnum == {"0", "2", "9", "a", "b", "c", "z"}
+BraceChars == {"{", "}", ","}
 Mid(l) == CHOOSE c \in Sym : Code[c] = Code[l] + 1
 
 ClsTable(e) ==      \* simplifyCharClass / simplifyNegCharClass: whole-class spellings
@@ -177,13 +187,20 @@ WalkItems(items) ==
 Walk(e) ==
   CASE e.op = "cat"   -> WalkConcat(e.xs)
     [] e.op = "alt"   -> WalkAlt(e.xs)
-    [] e.op = "rng"   -> LET d == Code[e.h] - Code[e.l] IN
-                         CASE d = 0 -> R(Ch(e.l), 1, {"RangeExpand"})
+    [] e.op = "rng"   -> LET d == Code[e.h] - Code[e.l]
+                             produced == IF d = 2 THEN {e.l, Mid(e.l), e.h} ELSE {e.l, e.h}
+                             safe == (GuardRangeSafe /\ d <= 2) => produced \cap {"-", "]", "^"} = {} IN
+                         CASE ~safe -> R(e, 0, {})
+                           [] d = 0 -> R(Ch(e.l), 1, {"RangeExpand"})
                            [] d = 1 -> R(Cat(<<Ch(e.l), Ch(e.h)>>), 1, {"RangeExpand"})
                            [] d = 2 -> R(Cat(<<Ch(e.l), Ch(Mid(e.l)), Ch(e.h)>>), 1, {"RangeExpand"})
                            [] OTHER -> R(e, 0, {})
     [] e.op = "grp"   -> LET w == Walk(e.x) IN
-                         IF e.x.op \in {"ch", "escc", "esck", "escm", "cls"} THEN R(w.e, w.n + 1, w.a \cup {"GroupOfAtom"}) ELSE R(Grp(w.e), w.n, w.a)
+                         IF e.x.op \in {"ch", "escc", "esck", "escm", "cls"} /\ ~(GuardBraceComma /\ e.x.op \in {"ch", "escc"} /\ e.x.c \in BraceChars)
+                         THEN R(w.e, w.n + 1, w.a \cup {"GroupOfAtom"}) ELSE R(Grp(w.e), w.n, w.a)
+    [] e.op = "flag"  -> LET w == Walk(e.x) IN
+                         IF FlagPrefix THEN R(FlagGrp(w.e), w.n, w.a)
+                         ELSE R(Cap(MkCat(<<Ch("i"), Ch(":"), w.e>>)), w.n, w.a)      \* "(i:x)" is a capture group around the text i:x
     [] e.op = "cap"   -> LET w == Walk(e.x) IN R(Cap(w.e), w.n, w.a)
     [] e.op = "ncap"  -> LET w == Walk(e.x) IN R(NCap(w.e), w.n, w.a)
     [] e.op = "rep"   -> LET w == Walk(e.x) IN
@@ -216,13 +233,15 @@ RereadCat(xs) ==
       G(k, acc) == IF k > Len(xs) THEN acc
                    ELSE IF acc # <<>> /\ k + 2 <= Len(xs) /\ xs[k] = Ch("{") /\ xs[k+1] = Ch("2") /\ xs[k+2] = Ch("}")
                         THEN G(k+3, SubSeq(acc, 1, Len(acc) - 1) \o <<Rep(acc[Len(acc)], "2")>>)
+                   ELSE IF acc # <<>> /\ k + 4 <= Len(xs) /\ xs[k] = Ch("{") /\ xs[k+1] = Ch("2") /\ xs[k+2] = Ch(",") /\ xs[k+3] = Ch("2") /\ xs[k+4] = Ch("}")
+                        THEN G(k+5, SubSeq(acc, 1, Len(acc) - 1) \o <<Rep(acc[Len(acc)], "2,2")>>)
                    ELSE IF k + 1 <= Len(xs) /\ xs[k] = Oct /\ xs[k+1] = Ch("2")
                         THEN G(k+2, Append(acc, EscM("n")))                  \* a newline: matches nothing of the alphabet
                         ELSE G(k+1, Append(acc, Reread(xs[k])))
   IN G(1, <<>>)
 Reread(e) == CASE e.op = "cat" -> MkCat(RereadCat(e.xs))
                [] e.op = "alt" -> Alt([k \in DOMAIN e.xs |-> Reread(e.xs[k])])
-               [] e.op \in {"grp", "cap", "ncap", "star", "plus", "quest", "lazy"} -> [e EXCEPT !.x = Reread(e.x)]
+               [] e.op \in {"grp", "flag", "cap", "ncap", "star", "plus", "quest", "lazy"} -> [e EXCEPT !.x = Reread(e.x)]
                [] e.op = "rep" -> Rep(Reread(e.x), e.r)
                [] OTHER -> e
 \* two passes; an empty candidate string ends the pass loop exactly like "no score"
@@ -237,13 +256,13 @@ Simplify(e) == Simp(e).e
 RECURSIVE NCaps(_)
 NCapsSeq(xs) == LET RECURSIVE S(_) S(k) == IF k = 0 THEN 0 ELSE S(k-1) + NCaps(xs[k]) IN S(Len(xs))
 NCaps(e) == CASE e.op \in {"cap", "ncap"} -> 1 + NCaps(e.x)
-              [] e.op \in {"grp", "star", "plus", "quest", "lazy", "rep"} -> NCaps(e.x)
+              [] e.op \in {"grp", "flag", "star", "plus", "quest", "lazy", "rep"} -> NCaps(e.x)
               [] e.op \in {"cat", "alt"} -> NCapsSeq(e.xs)
               [] OTHER -> 0
 RECURSIVE Names(_)
 Names(e) == CASE e.op = "ncap" -> <<"n">> \o Names(e.x)
               [] e.op = "cap" -> <<"">> \o Names(e.x)
-              [] e.op \in {"grp", "star", "plus", "quest", "lazy", "rep"} -> Names(e.x)
+              [] e.op \in {"grp", "flag", "star", "plus", "quest", "lazy", "rep"} -> Names(e.x)
               [] e.op \in {"cat", "alt"} -> LET RECURSIVE S(_) S(k) == IF k > Len(e.xs) THEN <<>> ELSE Names(e.xs[k]) \o S(k+1) IN S(1)
               [] OTHER -> <<>>
 ItemSet(it) == CASE it.op = "ch" -> {it.c}
@@ -275,14 +294,14 @@ Times(x, s, st, base, lo, hi, lazy) ==      \* x{lo,hi}; hi = -1 unbounded; opti
   IN It(st, 0)
 Bounds(r) == CASE r = "0" -> <<0, 0>> [] r = "1" -> <<1, 1>> [] r = "2" -> <<2, 2>> [] r = "3" -> <<3, 3>> [] r = "4" -> <<4, 4>>
                [] r = "5" -> <<5, 5>> [] r = "6" -> <<6, 6>> [] r = "0,1" -> <<0, 1>> [] r = "1," -> <<1, -1>> [] r = "0," -> <<0, -1>>
-               [] r = "1,2" -> <<1, 2>> [] OTHER -> <<9, 9>>
+               [] r = "1,2" -> <<1, 2>> [] r = "2,2" -> <<2, 2>> [] OTHER -> <<9, 9>>
 Quant(q, s, st, base, lazy) ==
   CASE q.op = "star"  -> Times(q.x, s, st, base, 0, -1, lazy)
     [] q.op = "plus"  -> Times(q.x, s, st, base, 1, -1, lazy)
     [] q.op = "quest" -> Times(q.x, s, st, base, 0, 1, lazy)
 M(e, s, st, base) ==
   CASE IsAtom(e)      -> IF st.i <= Len(s) /\ s[st.i] \in AtomSet(e) THEN <<St(st.i + 1, st.caps)>> ELSE <<>>
-    [] e.op = "grp"   -> M(e.x, s, st, base)
+    [] e.op \in {"grp", "flag"} -> M(e.x, s, st, base)
     [] e.op \in {"cap", "ncap"} ->
                          LET rs == M(e.x, s, st, base + 1)
                          IN [k \in DOMAIN rs |-> St(rs[k].i, [rs[k].caps EXCEPT ![base + 1] = <<st.i, rs[k].i>>])]
@@ -297,28 +316,43 @@ Find(e, s) == LET n == NCaps(e)
                       LET r == M(e, s, St(i, NoCaps(n)), 0) IN IF r # <<>> THEN <<i, r[1].i, r[1].caps>> ELSE F(i+1)
               IN F(1)
 
+\* a shortest string the pattern matches (exported: the Go side also tries it and its one-character variations, which
+\* matters for long patterns that no short subject can match)
+RECURSIVE Wit(_)
+WitSeq(xs) == LET RECURSIVE W(_) W(k) == IF k > Len(xs) THEN <<>> ELSE Wit(xs[k]) \o W(k+1) IN W(1)
+Times_(w, n) == LET RECURSIVE T(_) T(k) == IF k = 0 THEN <<>> ELSE w \o T(k-1) IN T(n)
+Wit(t) == CASE IsAtom(t) -> (LET S == AtomSet(t) IN IF S = {} THEN <<>> ELSE <<CHOOSE c \in S : TRUE>>)
+            [] t.op \in {"grp", "flag", "cap", "ncap", "plus"} -> Wit(t.x)
+            [] t.op \in {"star", "quest"} -> <<>>
+            [] t.op = "lazy" -> Wit(t.x)
+            [] t.op = "rep" -> Times_(Wit(t.x), IF Bounds(t.r)[1] = 9 THEN 1 ELSE Bounds(t.r)[1])
+            [] t.op = "cat" -> WitSeq(t.xs)
+            [] t.op = "alt" -> IF t.xs = <<>> THEN <<>> ELSE Wit(t.xs[1])
+            [] OTHER -> <<>>
+
 \* ---- subjects: strings over the characters a pattern mentions plus one foreign character ----------
 RECURSIVE Ment(_)
 Ment(e) == CASE e.op \in {"ch", "escm", "escc"} -> {e.c}
              [] e.op \in {"oct", "oct3"} -> {"SOH"}
              [] e.op \in {"esck", "posix"} -> {"2", " "}
-             [] e.op = "rng" -> {e.l, e.h}
+             [] e.op = "rng" -> {e.l, e.h} \cup (LET S == { c \in Sym : Code[e.l] < Code[c] /\ Code[c] < Code[e.h] }
+                                                  IN IF S = {} THEN {} ELSE {CHOOSE c \in S : TRUE})       \* one character strictly inside
              [] e.op = "dot" -> {}
              [] e.op \in {"cls", "ncls"} -> UNION { Ment(e.items[k]) : k \in DOMAIN e.items }
              [] e.op \in {"cat", "alt"} -> UNION { Ment(e.xs[k]) : k \in DOMAIN e.xs }
              [] OTHER -> Ment(e.x)
-AlphaOf(e) == Ment(e) \cup {"z"}
+AlphaOf(e) == Ment(e) \cup Ment(Simplify(e)) \cup {"z"}          \* what the pattern and its rewrite mention, plus a foreign character
 Strs(e) == LET A == AlphaOf(e) IN UNION { [1..n -> A] : n \in 0..(IF Cardinality(A) <= 3 THEN 3 ELSE 2) }
 
 \* ---- enumeration -----------------------------------------------------------------------
-Lits == IF Level <= 1 THEN {"a", "-", "2"} ELSE {"a", "b", "-", "2", " "}
+Lits == IF Level # 2 THEN {"a", "-", "2"} ELSE {"a", "b", "-", "2", " "}
 ChS == { Ch(c) : c \in Lits }
 Atoms0 == ChS \cup {Dot, EscM("."), EscC(","), EscK("d"), Oct}
-ItemsA == { Ch("a"), Ch("-"), Ch("{"), Ch("."), Ch("]"), Rng("a", "b"), Rng("a", "a"), Rng("a", "c"), Rng("-", "a"), Rng("0", "9"),
+ItemsA == { Ch("a"), Ch("-"), Ch("{"), Ch("}"), Ch(","), Ch("."), Ch("]"), Rng(",", "-"), Rng("a", "b"), Rng("a", "a"), Rng("a", "c"), Rng("-", "a"), Rng("0", "9"),
             EscC(","), EscC("."), EscC("^"), EscM("-"), EscK("d"), EscK("s"), EscK("W"), Posix("d", FALSE), Posix("w", TRUE) }
 ItemsB == ItemsA \cup { Ch("b"), Ch("2"), Rng("a", "z"), EscK("D"), EscK("S"), EscK("w"), Posix("s", FALSE), Posix("s", TRUE),
                         Posix("d", TRUE), Posix("w", FALSE), EscC(":") }
-Items == IF Level <= 1 THEN ItemsA ELSE ItemsB
+Items == IF Level # 2 THEN ItemsA ELSE ItemsB
 Second == { Ch("a"), Ch("-"), Ch("^"), EscC(","), Ch("2") }
 ClsSet == { Cls(<<i>>) : i \in Items } \cup { NCls(<<i>>) : i \in Items \cup {Ch("^")} }
           \cup { Cls(<<i, j>>) : i \in Items \ {Ch("-")}, j \in Second } \cup { Cls(<<Ch("-"), j>>) : j \in Second \ {Ch("-")} }
@@ -328,20 +362,34 @@ Reps == {"0", "1", "2", "0,1", "1,", "0,", "1,2"}
 Post(S) == { Star(x) : x \in S } \cup { Plus(x) : x \in S } \cup { Quest(x) : x \in S } \cup { Rep(x, r) : x \in S, r \in Reps }
 LazyOf(S) == { Lazy(Star(x)) : x \in S } \cup { Lazy(Plus(x)) : x \in S } \cup { Lazy(Quest(x)) : x \in S }
 Wrapped == { Grp(x) : x \in T0 } \cup { Cap(x) : x \in Atoms0 } \cup { NCap(Ch("a")), Grp(Cat(<<Ch("a"), Ch("-")>>)), Grp(Alt(<<Ch("a"), Ch("-")>>))}
+CapGroups == { Grp(Alt(<<Cap(Ch("a")), Ch("-")>>)), Grp(Cat(<<Cap(Ch("a")), Ch("-")>>)) }
+FlagGroups == { FlagGrp(Ch("a")), FlagGrp(Cls(<<Rng("0", "9")>>)), FlagGrp(Cat(<<Ch("a"), Cls(<<Ch("-")>>)>>)), FlagGrp(Rep(Ch("a"), "1,")) }
+\* literal pieces that complete a repeat when something between them is unwrapped or unescaped
+BraceMid == { EscC(","), Grp(Ch(",")), Grp(EscC(",")), Cls(<<Ch(",")>>), Cls(<<EscC(",")>>) }
+BraceTerms == { Cat(<<Ch("a"), Ch("{"), Ch("2"), x, Ch("2"), Ch("}")>>) : x \in BraceMid }
+              \cup { Cat(<<Ch("a"), Ch("{"), Ch("2"), x>>) : x \in {Cls(<<Ch("}")>>), Grp(Ch("}"))} }
+              \cup { Cat(<<Ch("a"), x, Ch("2"), Ch("}")>>) : x \in {Grp(Ch("{")), Cls(<<Ch("{")>>)} }
 NullableWrapped == { Cap(Alt(<<Ch("a"), Empty>>)), Grp(Alt(<<Empty, Ch("a")>>)) }
 Pairs == { Alt(<<x, y>>) : x, y \in ChS } \cup { Cat(<<x, y>>) : x, y \in ChS }
          \cup { Alt(<<x, Empty>>) : x \in ChS } \cup { Alt(<<Empty, x>>) : x \in ChS }
-PostBase == IF Level <= 1 THEN Atoms0 \cup { Cls(<<Ch("a")>>), Cls(<<Ch("{")>>), Cls(<<Ch("a"), Ch("-")>>), NCls(<<EscK("s")>>), Cls(<<Rng("a", "b")>>) } ELSE T0
+PostBase == IF Level # 2 THEN Atoms0 \cup { Cls(<<Ch("a")>>), Cls(<<Ch("{")>>), Cls(<<Ch("a"), Ch("-")>>), NCls(<<EscK("s")>>), Cls(<<Rng("a", "b")>>) } ELSE T0
 T1 == T0 \cup Wrapped \cup NullableWrapped \cup Post(PostBase) \cup LazyOf(Atoms0) \cup Pairs
 \* contexts that change how a rewritten neighbour is read back
 CtxSeq == << Ch("a"), Ch("-"), Ch("2"), Ch("{"), Star(Ch("a")), Cap(Ch("a")), Rep(Cap(Ch("a")), "0"), Cls(<<Ch("a"), Ch("b")>>),
             Dot, Ch(" "), Grp(Ch("a")), Grp(Alt(<<Ch("a"), Ch("-")>>)), EscC(","), Oct >>
 \* Slice = 0: every context (level 1: the first eight); Slice = k > 0: only the k-th context and nothing else (the thorough tier
 \* runs the slices as separate TLC processes: initial states are computed on one thread)
-Ctx == IF Slice = 0 THEN { CtxSeq[k] : k \in 1..(IF Level <= 1 THEN 8 ELSE Len(CtxSeq)) } ELSE { CtxSeq[Slice] }
+Ctx == IF Slice = 0 THEN { CtxSeq[k] : k \in 1..(IF Level # 2 THEN 8 ELSE Len(CtxSeq)) } ELSE { CtxSeq[Slice] }
 Sites == T1 \ Pairs
 InCtx == { Cat(<<x, y>>) : x \in Ctx, y \in Sites } \cup { Cat(<<y, x>>) : x \in Ctx, y \in Sites }
-Rest ==  { Alt(<<x, y>>) : x \in {Ch("a"), Ch("-"), Cap(Ch("a"))}, y \in Sites \ ChS }
+\* long patterns with a long common head (many escapes: their quoted spelling is longer than 72 characters) and different tails
+LongHead == [k \in 1..24 |-> IF k % 2 = 1 THEN EscK("d") ELSE EscK("s")]
+LongTails == { <<Cls(<<Rng("0", "9")>>)>>, <<Cls(<<Rng("a", "b")>>)>>, <<Rep(Ch("a"), "1,")>>, <<Ch("a"), Star(Ch("a"))>>, <<Grp(Ch("a"))>>,
+               <<Cls(<<Ch("a")>>)>>, <<Ch("a")>>, <<Rep(Ch("-"), "0,1")>> }
+LongTerms == { Cat(LongHead \o t) : t \in LongTails }
+Rest ==  LongTerms \cup FlagGroups \cup BraceTerms \cup { Cat(<<g, g>>) : g \in CapGroups } \cup { Cat(<<g, Star(g)>>) : g \in CapGroups }
+      \cup { Cat(<<g, g, Ch("b")>>) : g \in CapGroups }
+      \cup { Alt(<<x, y>>) : x \in {Ch("a"), Ch("-"), Cap(Ch("a"))}, y \in Sites \ ChS }
       \cup { Alt(<<x, y, z>>) : x, y, z \in ChS }
       \cup { Cat(<<Ch("a"), x, Ch("2"), Ch("}")>>) : x \in ClsSet }
       \cup { Cat(<<x, x, x, x, x>>) : x \in {Ch("a"), Ch(" "), Dot} } \cup { Cat(<<x, x, x, x>>) : x \in {Ch("a"), Dot} }
@@ -361,30 +409,97 @@ Canon(e) == CASE e.op = "cat" -> /\ \A k \in DOMAIN e.xs : e.xs[k].op \notin {"c
                                  /\ \A k \in 1..(Len(e.xs) - 1) : ~(e.xs[k] = Oct /\ e.xs[k+1] = Ch("2"))      \* \012 is another escape
               [] e.op = "alt" -> \A k \in DOMAIN e.xs : e.xs[k].op # "alt" /\ Canon(e.xs[k])
               [] e.op \in {"cls", "ncls"} -> ValidItems(e.items)
-              [] e.op \in {"grp", "cap", "ncap", "star", "plus", "quest", "lazy", "rep"} -> Canon(e.x)
+              [] e.op \in {"grp", "flag", "cap", "ncap", "star", "plus", "quest", "lazy", "rep"} -> Canon(e.x)
               [] OTHER -> TRUE
-Focus == T1 \cup { Cat(<<Ch("a"), x, Ch("2"), Ch("}")>>) : x \in ClsSet } \cup Post(Wrapped)
+\* ---- simulation: random terms of a richer grammar (tlc -simulate); every step draws a new term ------------------------
+The(S) == CHOOSE x \in S : TRUE
+RECURSIVE Nullable(_)
+Nullable(t) == CASE t.op \in {"star", "quest"} -> TRUE
+                 [] t.op = "lazy" -> Nullable(t.x)
+                 [] t.op = "plus" -> Nullable(t.x)
+                 [] t.op = "rep" -> Bounds(t.r)[1] = 0 \/ Nullable(t.x)
+                 [] t.op \in {"grp", "flag", "cap", "ncap"} -> Nullable(t.x)
+                 [] t.op = "cat" -> \A k \in DOMAIN t.xs : Nullable(t.xs[k])
+                 [] t.op = "alt" -> \E k \in DOMAIN t.xs : Nullable(t.xs[k])
+                 [] OTHER -> FALSE
+IsQuant(t) == t.op \in {"star", "plus", "quest", "lazy", "rep"}
+Operand(t) == IF t.op \in {"cat", "alt"} \/ IsQuant(t) THEN Grp(t) ELSE t
+Quantify(t, q) == LET x == The({Operand(t)}) IN
+  IF Nullable(x) THEN x
+  ELSE CASE q = 1 -> Star(x) [] q = 2 -> Plus(x) [] q = 3 -> Quest(x) [] q = 4 -> Lazy(Star(x)) [] q = 5 -> Lazy(Quest(x))
+         [] q = 6 -> Rep(x, "0") [] q = 7 -> Rep(x, "1") [] q = 8 -> Rep(x, "2") [] q = 9 -> Rep(x, "0,1") [] q = 10 -> Rep(x, "1,")
+         [] q = 11 -> Rep(x, "0,") [] OTHER -> Rep(x, "1,2")
+CatOf(a, b) == LET u == IF a.op = "alt" THEN Grp(a) ELSE a
+                   v == IF b.op = "alt" THEN Grp(b) ELSE b IN MkCat(<<u, v>>)
+AltOf(a, b) == Alt((IF a.op = "alt" THEN a.xs ELSE <<a>>) \o (IF b.op = "alt" THEN b.xs ELSE <<b>>))
+\* pseudo-random terms: TLC resets its own random source for every state, so the draws come from a small linear congruential
+\* generator over the term's seed (all products stay below 2^31); a term is a pure function of its seed
+L(r) == ((r * 75) + 74) % 65537
+Rt(r) == ((r * 171) + 11) % 30269
+LitSeq == << Ch("a"), Ch("b"), Ch("-"), Ch("2"), Ch(" "), Ch("{"), Ch("}"), Ch(","), Dot, EscM("."), EscC(","), EscC(":"), EscK("d"), EscK("s"), EscK("W"), Oct >>
+ItemSeq == << Ch("a"), Ch("b"), Ch("-"), Ch("2"), Ch("{"), Ch("}"), Ch(","), Ch("."), Ch("]"), Rng("a", "b"), Rng("a", "a"), Rng("a", "c"), Rng("a", "z"),
+              Rng("-", "a"), Rng(",", "-"), Rng("0", "9"), EscC(","), EscC("."), EscC("^"), EscC(":"), EscM("-"), EscK("d"), EscK("D"), EscK("s"),
+              EscK("S"), EscK("w"), EscK("W"), Posix("d", FALSE), Posix("d", TRUE), Posix("w", FALSE), Posix("w", TRUE), Posix("s", FALSE), Posix("s", TRUE) >>
+SecondSeq == << Ch("a"), Ch("-"), Ch("^"), EscC(","), Ch("2"), Rng("a", "b") >>
+Pick(seq, r) == seq[(r % Len(seq)) + 1]
+PickAtom(r) ==
+  LET k == r % 10
+      i == Pick(ItemSeq, r \div 10)
+      j == Pick(SecondSeq, r \div 330)
+      pairOK == ~(i = Ch("-") /\ j = Ch("-")) /\ ~(i.op = "rng" /\ j = Ch("-") /\ FALSE)
+  IN CASE k <= 3 -> Pick(LitSeq, r \div 10)
+       [] k <= 5 -> Cls(<<i>>)
+       [] k <= 7 -> IF pairOK THEN Cls(<<i, j>>) ELSE Cls(<<i>>)
+       [] k = 8 -> NCls(<<i>>)
+       [] OTHER -> IF pairOK THEN NCls(<<i, j>>) ELSE NCls(<<i>>)
+RECURSIVE Gen(_, _)
+Gen(d, r) ==
+  LET k == ((r \div 7) % 14) + 1
+      q == ((r \div 3) % 12) + 1
+      a == L(r)
+      b == Rt(r) + 1
+  \* sub-terms are bound through singleton sets: TLC evaluates operator arguments lazily, i.e. once per use
+  IN IF d = 0 THEN PickAtom(a)
+     ELSE CASE k <= 3 -> PickAtom(a)
+            [] k = 4 -> Grp(Gen(d-1, a))
+            [] k = 5 -> Cap(Gen(d-1, a))
+            [] k \in {6, 7} -> The({ Quantify(x, q) : x \in {Gen(d-1, a)} })
+            [] k \in 8..11 -> The({ CatOf(x, y) : x \in {Gen(d-1, a)}, y \in {Gen(d-1, b)} })
+            [] k \in 12..13 -> The({ AltOf(x, y) : x \in {Gen(d-1, a)}, y \in {Gen(d-1, b)} })
+            [] OTHER -> FlagGrp(Gen(d-1, a))
+SimTerms == { Gen(3, L(L(SimOff + i))) : i \in 1..SimN }
+Focus == T1 \cup FlagGroups \cup BraceTerms \cup { Cat(<<g, g>>) : g \in CapGroups } \cup { Cat(<<Ch("a"), x, Ch("2"), Ch("}")>>) : x \in ClsSet } \cup Post(Wrapped)
          \cup { Alt(<<Cat(<<Ch("a"), Ch("b")>>), Cat(<<Ch("a"), Ch("b"), c>>)>>) : c \in ChS }
          \cup { Alt(<<x, y, z>>) : x, y, z \in ChS } \cup { Cat(<<Rep(Cap(Ch("a")), "0"), Ch("-")>>), Cat(<<Rep(Oct, "1"), Ch("2")>>) }
-Terms == { t \in (IF Level = 0 THEN Focus ELSE T2) : Canon(t) /\ Reread(t) = t }
+Terms == { t \in (IF Level = 0 THEN Focus ELSE IF Level = 3 THEN SimTerms ELSE T2) : Canon(t) /\ Reread(t) = t /\ Len(Show(t)) <= 60 }
 
 Same(t) == LET o == Simplify(t) IN
            NCaps(o) = NCaps(t) /\ Names(o) = Names(t) /\ \A s \in Strs(t) : Find(o, s) = Find(t, s)
 
-VARIABLES e, pat, out, acts, same, ncap, alpha, finds
-vars == <<e, pat, out, acts, same, ncap, alpha, finds>>
+VARIABLES e, pat, out, acts, same, ncap, alpha, finds, ctxt, wit
+vars == <<e, pat, out, acts, same, ncap, alpha, finds, ctxt, wit>>
+\* context tags of a term (used to classify findings): literal brace characters that are not a repeat
+RECURSIVE HasBraceLit(_)
+HasBraceLit(t) == CASE t.op \in {"ch", "escc", "escm"} -> t.c \in {"{", "}"}
+                    [] t.op \in {"cls", "ncls"} -> \E k \in DOMAIN t.items : HasBraceLit(t.items[k])
+                    [] t.op \in {"cat", "alt"} -> \E k \in DOMAIN t.xs : HasBraceLit(t.xs[k])
+                    [] t.op \in {"grp", "flag", "cap", "ncap", "star", "plus", "quest", "lazy", "rep"} -> HasBraceLit(t.x)
+                    [] OTHER -> FALSE
 \* the term is chosen in the initial state and evaluated in one step (TLC computes initial states on one thread, steps on all)
-Init == e \in Terms /\ pat = <<>> /\ out = <<>> /\ acts = {} /\ same = TRUE /\ ncap = -1 /\ alpha = {} /\ finds = <<>>
+Init == e \in Terms /\ pat = <<>> /\ out = <<>> /\ acts = {} /\ same = TRUE /\ ncap = -1 /\ alpha = {} /\ finds = <<>> /\ ctxt = {} /\ wit = <<>>
 Evaluate == /\ ncap = -1
             /\ pat' = Show(e)
             /\ LET r == Simp(e) IN out' = Show(r.e) /\ acts' = r.a
             /\ same' = Same(e)
             /\ ncap' = NCaps(e)
             /\ alpha' = AlphaOf(e)
+            /\ ctxt' = IF HasBraceLit(e) THEN {"brace-literal"} ELSE {}
+            /\ wit' = Wit(e)
             /\ finds' = IF ExportFinds THEN [s \in Strs(e) |-> Find(e, s)] ELSE <<>>
             /\ UNCHANGED e
 Next == Evaluate
 Spec == Init /\ [][Next]_vars
+
 SameLanguage == same
 TypeOK == same \in BOOLEAN
 =============================================================================
